@@ -420,6 +420,44 @@ theorem binding_only_from_routed (r : Reg) (p : Pkt) (s : Nat) (l : Lid)
       subst hb1
       exact ⟨rfl, v0, hs, by simpa using hb⟩
 
+/-- **stream_not_split_after_extension_hit**: when a packet is identified by its RID or MID extension as
+listener `b`'s and delivered to `b`, the SSRC map afterwards binds the packet's SSRC to `b` — whatever it
+pointed at before (a binding signalled for, or learnt for, another receiver is CORRECTED, by RID as by
+MID) — and the next packet `q` of that SSRC that carries neither a RID nor a MID value is selected for
+`b` by the SSRC stage: a stream is not split across two receivers after an identification by extension.
+(Implementation-side oracle: `cross:ssrc-binding-stale-after-{rid,mid}-hit`.) -/
+theorem stream_not_split_after_extension_hit (r : Reg) (p q : Pkt) (b : Lid) (v : Via)
+    (hd : (receive r p).2 = .delivered b v) (hv : v = .rid ∨ v = .mid)
+    (hq : q.ssrc = p.ssrc)
+    (hqr : extOf q (receive r p).1.ridExt = none) (hqm : extOf q (receive r p).1.midExt = none) :
+    lookup p.ssrc (receive r p).1.bySsrc = some b ∧ select (receive r p).1 q = some (b, .ssrc, false) := by
+  have hbind : lookup p.ssrc (receive r p).1.bySsrc = some b := by
+    have hrec : ∀ x, select r p = x → lookup p.ssrc (receive r p).1.bySsrc = some b := by
+      intro x hx
+      unfold receive at hd ⊢
+      rw [hx] at hd ⊢
+      match x with
+      | none => simp at hd
+      | some (l0, v0, b0) =>
+        obtain ⟨hc, rfl, rfl⟩ := deliver_delivered _ _ _ _ _ _ hd
+        have hb0 : b0 = true := by
+          have := (selection_is_priority_spec_partial r p).2.2.2.2 _ _ _ hx
+          rcases hv with rfl | rfl <;> simpa using this
+        subst hb0
+        show lookup p.ssrc (deliver (afterSelect r p.ssrc b true) p.ssrc b v).1.bySsrc = some b
+        have hdel : (deliver (afterSelect r p.ssrc b true) p.ssrc b v).1 = afterSelect r p.ssrc b true := by
+          unfold deliver; simp [hc]
+        rw [hdel]
+        simp only [afterSelect, if_true]
+        exact bindFromPacket_lookup r p.ssrc b
+    exact hrec _ rfl
+  refine ⟨hbind, ?_⟩
+  have h1 : stageRid (receive r p).1 q = none := by simp [stageRid, hqr]
+  have h2 : stageMid (receive r p).1 q = none := by simp [stageMid, hqm]
+  have h3 : lateStages (receive r p).1 q = some (b, .ssrc, false) := by simp [lateStages, hq, hbind]
+  have h4 : vetoed (receive r p).1 q b = false := by simp [vetoed, unknownMid, hqm]
+  simp [select, h1, h2, h3, h4]
+
 /-- how an SSRC binding present after a sequence of operations is explained by that sequence -/
 def Explained (r0 : Reg) (ops : List Op) (s : Nat) (l : Lid) : Prop :=
   (s, l) ∈ r0.bySsrc ∨ Op.regSsrc s l ∈ ops ∨
